@@ -745,7 +745,7 @@ func init() {
 			"values that a call writes (security.Count, MarshalBinary receivers in uePolicyContainer) are never shared — the statement covers distinct values or read-only sharing of a decoded message",
 			"schedules are sampled, not enumerated; a race needs only to be unordered, not to coincide in time",
 		},
-		Oracles: map[string]func(*core.Ctx, *core.Case){"round": c19Round, "item": c19Item1},
+		Oracles: map[string]func(*core.Ctx, *core.Case){"cold-concurrent": coldConcurrent, "round": c19Round, "item": c19Item1},
 		Shards:  4,
 		Post:    c19Post,
 		Floors: func(tier string, cov map[string]map[string]int64, cnt map[string]int64) []string {
@@ -781,6 +781,12 @@ func init() {
 		rounds := 3
 		if tier == "thorough" {
 			rounds = 24
+		}
+		// cold starts under the race detector: the first use of each group of operations in a
+		// process is made by 32 goroutines at once (lazily built tables and caches are then built
+		// under contention, and the detector sees the unsynchronised publication)
+		for gi, g := range [][]string{{"mac1", "cipher1"}, {"mac2", "cipher2"}, {"mac3", "cipher3", "mac0"}, {"getters", "ident", "shared-parse"}, {"lists", "misc", "zones"}, {"qos", "pco", "uepolicy", "handoff"}, {"decode", "encode", "accessor"}} {
+			us = append(us, coldUnitN("nas", gi+1, 32, g...))
 		}
 		// long storms of the keyed algorithms: 32 goroutines x 200 (thorough 2000) light items of one
 		// cipher / MAC kind, each item calling twice with its parameters — state kept per
